@@ -459,6 +459,19 @@ func TestExternalCorpus(t *testing.T) {
 		checkParsed(t, test, "clang-14 "+c.Name(), x, pm)
 		hx.NonTrivial("clang/" + c.Name())
 	}
+	for i, f := range corpus.Catalogue() {
+		// hand-written modules for rarely produced constructs (callbr with operand bundles, ...)
+		if !hx.Mine(i) {
+			continue
+		}
+		pm, err, p := lx.Parse(f.Text)
+		if err != nil || p != nil {
+			hx.Discard("parser_does_not_accept(judged_by_C01)")
+			continue
+		}
+		checkParsed(t, test, f.Name, f.Text, pm)
+		hx.NonTrivial(f.Name)
+	}
 	hx.Check(t, test, hx.N(30, 1500), func(rt *rapid.T) {
 		x, desc, ok := mut.Valid(rt)
 		if !ok {
